@@ -214,3 +214,36 @@ pub fn ref_uplink(frame: &[u8], nwk: &[u8; 16], app: &[u8; 16], fcnt32: u32) -> 
         hex(&payload)
     )
 }
+
+pub fn aes_dec(key: &[u8; 16], block: &[u8; 16]) -> [u8; 16] {
+    use aes::cipher::BlockCipherDecrypt;
+    let c = aes::Aes128::new_from_slice(key).unwrap();
+    let mut b = aes::cipher::array::Array::from(*block);
+    c.decrypt_block(&mut b);
+    let mut out = [0u8; 16];
+    out.copy_from_slice(&b);
+    out
+}
+
+/// Independent encoder of a JoinAccept (§6.2.5): MHDR | JoinNonce | NetID | DevAddr | DLSettings |
+/// RxDelay | [CFList 16] | MIC, everything after the MHDR "encrypted" with AES-decrypt.
+pub fn build_join_accept(key: &[u8; 16], mhdr: u8, join_nonce: &[u8; 3], net_id: &[u8; 3], devaddr: u32, dl_settings: u8, rx_delay: u8, cflist: Option<[u8; 16]>) -> Vec<u8> {
+    let mut out = vec![mhdr];
+    out.extend_from_slice(join_nonce);
+    out.extend_from_slice(net_id);
+    out.extend_from_slice(&devaddr.to_le_bytes());
+    out.push(dl_settings);
+    out.push(rx_delay);
+    if let Some(c) = cflist {
+        out.extend_from_slice(&c);
+    }
+    let mic = cmac4(key, &out);
+    out.extend_from_slice(&mic);
+    let mut enc = vec![mhdr];
+    for block in out[1..].chunks(16) {
+        let mut b = [0u8; 16];
+        b.copy_from_slice(block);
+        enc.extend_from_slice(&aes_dec(key, &b));
+    }
+    enc
+}
